@@ -105,6 +105,7 @@ pub fn decode_case(tape: &[u16], params: &Params, async_weight: u32) -> StructCa
         problem,
         rt,
         extra: t.rest().iter().copied().take(96).collect(),
+        more: vec![],
     }
 }
 
